@@ -302,8 +302,8 @@ func runEvents(args []string) {
 				}
 				out.Write(M{"prop": "C48", "kind": "payload-mismatch", "site": r.Site, "engine": engine, "id": r.ID,
 					"problem": classifyEvProblem(problems[0]), "fty": fty, "fkind": fkind,
-					"msg":     fmt.Sprintf("site %s (%s): %s\n delivered: %v", r.Site, engine, strings.Join(problems, "; "), evs),
-					"src":     contract + "\n" + program, "row": r})
+					"msg": fmt.Sprintf("site %s (%s): %s\n delivered: %v", r.Site, engine, strings.Join(problems, "; "), evs),
+					"src": contract + "\n" + program, "row": r})
 			}
 		}
 	})
